@@ -137,19 +137,42 @@ class Builder:
         op = self.r.choice(["Lt", "Le", "Gt", "Ge", "Eq", "Ne"])
         self.add_test("cmp_" + op, BOOL, [S("return", e=E("cmp", BOOL, op=op, a=a, b=b))])
 
-    def pos_boolop(self):
-        first = self.r.choice(["bt", "bf"])
-        second = self.r.choice(["bt", "bf"])
-        k = self.r.choice(["and", "or"])
+    def _boolop(self, k, first):
         a = self.call(first)
-        b = E("cmp", BOOL, op="Ge", a=self.g(), b=c(0)) if self.r.random() < 0.5 else self.call(second)
+        b = E("cmp", BOOL, op="Ge", a=self.g(), b=c(0)) if self.r.random() < 0.5 else self.call(self.r.choice(["bt", "bf"]))
         self.add_test(f"bool_{k}_{first}", BOOL, [S("return", e=E(k, BOOL, a=a, b=b))])
 
-    def pos_boolop3(self):
-        k = self.r.choice(["and", "or"])
+    def pos_bool_and_t(self):
+        self._boolop("and", "bt")
+
+    def pos_bool_and_f(self):
+        self._boolop("and", "bf")
+
+    def pos_bool_or_t(self):
+        self._boolop("or", "bt")
+
+    def pos_bool_or_f(self):
+        self._boolop("or", "bf")
+
+    def _boolop3(self, k):
         xs = [self.call(self.r.choice(["bt", "bf"])) for _ in range(3)]
         e = E(k, BOOL, a=E(k, BOOL, a=xs[0], b=xs[1]), b=xs[2])
         self.add_test(f"bool3_{k}", BOOL, [S("return", e=e)])
+
+    def pos_bool3_and(self):
+        self._boolop3("and")
+
+    def pos_bool3_or(self):
+        self._boolop3("or")
+
+    def pos_bool_mixed(self):
+        # (a and b) or c  /  a and (b or c)
+        xs = [self.call(self.r.choice(["bt", "bf"])) for _ in range(3)]
+        if self.r.random() < 0.5:
+            e = E("or", BOOL, a=E("and", BOOL, a=xs[0], b=xs[1]), b=xs[2])
+        else:
+            e = E("and", BOOL, a=xs[0], b=E("or", BOOL, a=xs[1], b=xs[2]))
+        self.add_test("bool_mixed", BOOL, [S("return", e=e)])
 
     def pos_not_neg(self):
         self.add_test("not", BOOL, [S("return", e=E("not", BOOL, a=self.call(self.r.choice(["bt", "bf"]))))])
@@ -313,7 +336,9 @@ class Builder:
                             b=E("pop", U256, base=bsto(DYN), path=[])))])
 
     def pos_assert(self):
-        self.add_test("assert", U256, [S("assert", e=E("or", BOOL, a=self.call("bf"), b=self.call("bt"))), S("return", e=sto(CTR))])
+        e = E("or", BOOL, a=self.call("bf"), b=self.call("bt")) if self.r.random() < 0.5 else \
+            E("and", BOOL, a=self.call("bt"), b=self.call("bt"))
+        self.add_test("assert", U256, [S("assert", e=e), S("return", e=sto(CTR))])
 
     def pos_if_cond(self):
         a, b = self.two()
@@ -356,7 +381,7 @@ class Builder:
             S("assign", base=bsto(ARR), path=[("i", c(1))], e=c(8), decl=None),
             S("return", e=self.call("h", E("idx", U256, a=sto(ARR), i=c(1)), self.call("wr")))])
 
-    POSITIONS = ["binop", "binop_bit", "binop_nested", "divmod", "compare", "boolop", "boolop3", "not_neg", "ifexp", "call_args",
+    POSITIONS = ["binop", "binop_bit", "binop_nested", "divmod", "compare", "bool_and_t", "bool_and_f", "bool_or_t", "bool_or_f", "bool3_and", "bool3_or", "bool_mixed", "not_neg", "ifexp", "call_args",
                  "call_args_nested", "subscript_read", "subscript_2d", "subscript_of_call", "assign_target",
                  "assign_target_2d", "assign_field", "aug_scalar", "aug_scalar_bit", "aug_local", "read_before_effect",
                  "read_before_container_effect", "return", "list_literal", "dyn_literal", "loop_iterable",
